@@ -135,3 +135,52 @@ Theorem C07_into_writer : forall c0 mf ins out compress decompress c,
                            (repeat ONext (S (length out))) = Done (st, rs) /\ rs = map Some out ++ [None]).
 Proof. exact sorter_into_writer. Qed.
 Print Assumptions C07_into_writer.
+
+(* ================= the sorter that really writes and re-reads its chunk files =================
+   FileSorter.file_sorter_run is the same sorter with every chunk a FILE: write_chunk and merge_chunks push
+   their entries through the Writer model (configuration wc, codec included), merge_chunks and the final
+   merge open each chunk file (trailer), put a fresh cursor on it and run the merger over those cursors.
+   It returns exactly what the list-level sorter returns, for every sorter and chunk-writer
+   configuration, every merge function whose values fit the u32 length limit (pure or not, failing or
+   not) and every insert sequence of fewer than 2^32 - 2 entries - unless a chunk file would exceed the
+   physical envelope of 2^64 bytes, which the file-level model reports as Fail EFuel.  With C07_sorter
+   this gives the property for the sorter over its real chunk storage: "a chunk is the list of entries
+   it holds" is a theorem, not a modelling assumption. *)
+From Grenad.proofs Require Import MergeCursors FileSorter.
+
+Theorem C07_chunk_files : forall compress decompress wc,
+  (forall b z, compress (wc_codec wc) (wc_level wc) b = Done z -> decompress (wc_codec wc) z = Done b) ->
+  (forall b, exists z, compress (wc_codec wc) (wc_level wc) b = Done z) ->
+  wc_levels wc < 256 -> 1 <= wc_interval wc -> wc_codec wc <= 5 ->
+  forall mf : mergefn, (forall n k vs v, mf n k vs = Done v -> len v <= U32_MAX) ->
+  forall c ins, len ins + 1 <= U32_MAX ->
+  file_sorter_run compress decompress wc c mf ins = Fail EFuel \/
+  file_sorter_run compress decompress wc c mf ins = sorter_run c mf ins.
+Proof. exact file_sorter_refines. Qed.
+Print Assumptions C07_chunk_files.
+
+(* the chunk files handed out at the end (into_reader_cursors) open with the right entry count and a
+   fresh cursor on each yields exactly the corresponding chunk of the list-level sorter *)
+Theorem C07_chunk_files_hold_the_chunks : forall compress decompress wc,
+  (forall b z, compress (wc_codec wc) (wc_level wc) b = Done z -> decompress (wc_codec wc) z = Done b) ->
+  (forall b, exists z, compress (wc_codec wc) (wc_level wc) b = Done z) ->
+  wc_levels wc < 256 -> 1 <= wc_interval wc -> wc_codec wc <= 5 ->
+  forall mf : mergefn, (forall n k vs v, mf n k vs = Done v -> len v <= U32_MAX) ->
+  forall c ins fs1 x, len ins + 1 <= U32_MAX ->
+  f_inserts compress decompress wc c mf (f_new c) ins = Done fs1 -> f_finish compress decompress wc mf fs1 = Done x ->
+  exists st1 y, s_inserts c mf (s_new c) ins = Done st1 /\ s_finish mf st1 = Done y /\
+    fst x = fst y /\
+    Forall2 (fun f es => exists s, open_chunk decompress f = Done (s, len es) /\ yields rsrc rsnext s es) (snd x) (snd y).
+Proof. exact file_sorter_chunks. Qed.
+Print Assumptions C07_chunk_files_hold_the_chunks.
+
+(* non-vacuity: codec None, a 3-level chunk writer, a budget that spills on every other insert and merges
+   chunks: the file-level run finishes inside the envelope, with the list-level result *)
+Example C07_chunk_files_example :
+  let wc := mk_wcfg 0 0 16 1 2 in
+  let c := mk_scfg 64 false 2 48 in
+  let ins := [([3], [1]); ([1], [2]); ([3], [3]); ([2], [4]); ([1], [5]); ([], [6]); ([3], [7])] in
+  file_sorter_run compress_none decompress_none wc c mf_concat ins = Done [([], [6]); ([1], [2; 5]); ([2], [4]); ([3], [1; 3; 7])] /\
+  sorter_run c mf_concat ins = Done [([], [6]); ([1], [2; 5]); ([2], [4]); ([3], [1; 3; 7])] /\
+  (exists st, s_inserts c mf_concat (s_new c) ins = Done st /\ creates (ss_events st) = 5).
+Proof. cbv zeta. split; [vm_compute; reflexivity|]. split; [vm_compute; reflexivity|]. eexists. split; vm_compute; reflexivity. Qed.
